@@ -202,6 +202,11 @@ struct Truth {
     answered: BTreeMap<u16, (IpAddr, u64)>,
     /// per ttl: (sent, received, failed) over all published rounds
     totals: BTreeMap<u8, (u64, u64, u64)>,
+    /// the greatest path length any published round reported, the lowest ttl probed, and whether the target
+    /// answered in the round in progress (C06: nothing is sent after that)
+    max_largest: u8,
+    min_ttl: u8,
+    target_answered: bool,
 }
 
 impl Truth {
@@ -245,12 +250,28 @@ impl Truth {
                 }
             }
         }
+        for s in probes {
+            let t = match s { ProbeStatus::Complete(c) => c.ttl.0, ProbeStatus::Awaited(p) => p.ttl.0, ProbeStatus::Failed(f) => f.ttl.0, _ => continue };
+            if self.min_ttl == 0 || t < self.min_ttl { self.min_ttl = t; }
+        }
         self.sent.clear();
         self.answered.clear();
+        self.target_answered = false;
     }
     fn check_totals(&self, run: &mut Run, ctx: &str, tracer: &Tracer) {
         let snap = tracer.snapshot();
         check_limits(run, ctx, tracer);
+        // C10 / C01: every hop from the lowest ttl probed up to the greatest path length any round reported is in the
+        // table (hops that were probed and answered in earlier rounds do not drop out when later rounds are shorter)
+        if self.min_ttl >= 1 {
+            for t in self.min_ttl..=self.max_largest {
+                if !snap.hops().iter().any(|h| h.ttl() == t) {
+                    let tt = self.totals.get(&t).copied().unwrap_or_default();
+                    run.fail("c01-stack-totals", format!("{ctx}: the hop table has no entry for ttl {t} (lowest ttl probed {}, greatest path length reported {}); the published outcomes for it sum to {}/{}/{}", self.min_ttl, self.max_largest, tt.0, tt.1, tt.2));
+                    break;
+                }
+            }
+        }
         for h in snap.hops() {
             let t = self.totals.get(&h.ttl()).copied().unwrap_or_default();
             if (h.total_sent() as u64, h.total_recv() as u64, h.total_failed() as u64) != t {
@@ -414,6 +435,8 @@ pub fn open_loop(run: &mut Run, cfg: &SCfg, t0: u64, iters: usize, clears: bool,
             cleared_once = true;
             tracer.clear();
             truth.totals.clear();
+            truth.max_largest = 0;
+            truth.min_ttl = 0;
             run.op("stack clear".into(), "ok".into());
             run.count("stack:clear");
             if rng.chance(1, 2) {
@@ -450,6 +473,12 @@ pub fn open_loop(run: &mut Run, cfg: &SCfg, t0: u64, iters: usize, clears: bool,
                     }
                 }
             }
+        }
+        // C06: never after the target has answered in this round
+        if truth.target_answered && !spy.sends.is_empty() {
+            run.fail("c06-stack-sent-after-target", format!("{ctx} … {req}: probe(s) [{}] handed to send_probe although the target's answer was delivered to the tracer earlier in this round",
+                spy.sends.iter().map(|(p, _, _)| format!("seq {} ttl {}", p.sequence.0, p.ttl.0)).collect::<Vec<_>>().join(", ")));
+            truth.target_answered = false;
         }
         for (p, oc, ops) in &spy.sends {
             // C11 on what the real strategy handed to the real channel: the bytes decode to a datagram that
@@ -491,6 +520,8 @@ pub fn open_loop(run: &mut Run, cfg: &SCfg, t0: u64, iters: usize, clears: bool,
         let calls = if spy.sends.is_empty() { "-".to_string() } else { spy.sends.iter().map(|(_, _, ops)| show_ops(ops)).collect::<Vec<_>>().join("|") };
         let sent = spy.sends.iter().map(|(p, oc, _)| format!("{}/{oc}", show_probe(p))).collect::<Vec<_>>().join(";");
         // --- wait and receive
+        let now_before_wait = clock::now_ns();
+        let sc_tcp_timeout = cfg.tcp_timeout;
         clock::advance(pl.dt);
         simsock::clear_ops();
         simsock::set_readable(Some(pl.readable));
@@ -517,10 +548,24 @@ pub fn open_loop(run: &mut Run, cfg: &SCfg, t0: u64, iters: usize, clears: bool,
             run.count("c03:stack-junk-checked");
         }
         let _ = simsock::take_ops();
-        let polled: Vec<String> = simsock::take_polled()
+        let polled_ids = simsock::take_polled();
+        let polled: Vec<String> = polled_ids
             .iter()
             .map(|id| before.iter().find(|l| l.id == *id).map_or("?".to_string(), |l| format!("{}/{}", l.sp, l.dp)))
             .collect();
+        // ground truth of the TCP handshake, from the network's side: a probe's socket that was scripted to complete
+        // (connected / refused), was polled and is gone has delivered the target's answer to the tracer
+        for (i, l) in before.iter().enumerate() {
+            if matches!(pl.env.get(i), Some(SockEnv::Connected(Some(_)) | SockEnv::Refused)) && polled_ids.contains(&l.id) && simsock::is_dropped(l.id)
+                && now_before_wait.saturating_add(pl.dt).saturating_sub(l.start) <= sc_tcp_timeout {
+                let seq = match cfg.pd { Pd::Src(_) => l.dp, _ => l.sp };
+                if truth.sent.get(&seq).is_some_and(|x| x.1 == 'o') {
+                    truth.answered.entry(seq).or_insert((cfg.dst, clock::now_ns()));
+                    truth.target_answered = true;
+                    run.count("stack:tcp-answer-consumed");
+                }
+            }
+        }
         live.retain(|l| !simsock::is_dropped(l.id));
         match r {
             Err(loc) => {
@@ -545,6 +590,7 @@ pub fn open_loop(run: &mut Run, cfg: &SCfg, t0: u64, iters: usize, clears: bool,
         if let (Some((seq, from)), Some(resp)) = (pl.answers, &spy.last_resp) {
             if resp.data().addr == from && truth.sent.get(&seq).is_some_and(|x| x.1 == 'o') {
                 truth.answered.entry(seq).or_insert((from, clock::now_ns()));
+                if from == cfg.dst { truth.target_answered = true; }
                 run.count("stack:genuine-delivered");
                 if rng.chance(4, 5) {
                     outstanding.retain(|(p, _)| p.sequence.0 != seq);
@@ -575,6 +621,7 @@ pub fn open_loop(run: &mut Run, cfg: &SCfg, t0: u64, iters: usize, clears: bool,
         let pubs_now = published.borrow();
         let pub_s = if pubs_now.len() > npub { pubs_now[npub].0.clone() } else { "none".to_string() };
         if pubs_now.len() > npub {
+            if let Some(l) = pubs_now[npub].0.split('/').nth(1).and_then(|x| x.parse::<u8>().ok()) { truth.max_largest = truth.max_largest.max(l); }
             truth.check_round(run, &format!("{ctx} … {req}"), &pubs_now[npub].1);
             previous = std::mem::take(&mut outstanding);
             check_limits(run, &ctx, &tracer);
@@ -984,6 +1031,15 @@ fn plan_path(path_len: u8, loss: u64, faults: u8) -> impl FnMut(&View<'_>, &mut 
                 answers = Some((p.sequence.0, from));
             }
         }
+        // TCP: a router's ICMP answer is readable in the very iteration in which the target completes (or refuses)
+        // the handshake of another probe — both have to reach the strategy (in this or the next iteration)
+        if cfg.proto == 't' && matches!(dgram, Dgram::Data(..)) && answers.is_some() && rng.chance(1, 2) {
+            if let Some((p, _)) = v.outstanding.iter().find(|(p, _)| p.ttl.0 >= path_len && Some(p.sequence.0) != answers.map(|a| a.0)) {
+                if let Some(i) = v.live.iter().position(|l| l.sp == p.src_port.0 && l.dp == p.dest_port.0) {
+                    env[i] = if rng.chance(1, 2) { SockEnv::Connected(Some(cfg.dst)) } else { SockEnv::Refused };
+                }
+            }
+        }
         if faults >= 2 && cfg.proto == 't' && rng.chance(1, 12) {
             for e in env.iter_mut() {
                 if rng.chance(1, 3) { *e = crate::chan_gen::sock_env(rng, cfg.v6(), cfg.dst); }
@@ -1047,6 +1103,42 @@ pub fn run(rng: &mut Rng, thorough: bool, _corpus: &[String]) -> Run {
         let mut plan = plan_path(3, 0, 0);
         run.count("directed:clear-limits");
         open_loop(&mut run, &cfg, 0, 400, true, &mut plan, rng);
+    }
+    // TCP: answers arrive late and out of order, and whenever a router's ICMP answer is readable the target completes
+    // (or refuses) the handshake of another probe in the same iteration: both answers count (C01), and once the
+    // target's answer has been consumed nothing more is sent in that round (C06)
+    for (v6, pd) in [(false, Pd::Src(5000)), (true, Pd::Dest(443)), (false, Pd::Dest(80))] {
+        let mut cfg = gen_cfg(rng, 't', v6);
+        cfg.pd = pd; cfg.first = 1; cfg.max = 12; cfg.inflight = 24; cfg.max_rounds = Some(6);
+        cfg.min_round = 60 * MS; cfg.max_round = 120 * MS; cfg.grace = 40 * MS; cfg.tcp_timeout = 500 * MS;
+        let mut base = plan_path(3, 50, 0);
+        let dst = cfg.dst;
+        let mut plan = move |v: &View<'_>, rng: &mut Rng| {
+            let mut pl = base(v, rng);
+            if matches!(pl.dgram, Dgram::Data(..)) {
+                let taken = pl.answers.map(|a| a.0);
+                if let Some((p, _)) = v.outstanding.iter().find(|(p, _)| p.ttl.0 >= 3 && Some(p.sequence.0) != taken) {
+                    if let Some(i) = v.live.iter().position(|l| l.sp == p.src_port.0 && l.dp == p.dest_port.0) {
+                        if i < pl.env.len() { pl.env[i] = if rng.chance(1, 2) { SockEnv::Connected(Some(dst)) } else { SockEnv::Refused }; }
+                    }
+                }
+            }
+            pl
+        };
+        run.count("directed:tcp-icmp-and-handshake-together");
+        open_loop(&mut run, &cfg, 0, 400, false, &mut plan, rng);
+    }
+    // an outage: a target that never answers (beyond max-ttl), routers that answer for a while and then fall silent
+    // for the rest of the trace — the rounds report a shorter and shorter path, the hops that were probed and
+    // answered before must stay in the table with their totals (C01 / C10)
+    for (proto, v6) in [('i', false), ('u', true), ('i', true)] {
+        let mut cfg = gen_cfg(rng, proto, v6);
+        cfg.first = 1; cfg.max = 4; cfg.inflight = 6; cfg.max_rounds = Some(7);
+        let mut good = plan_path(200, 0, 0);
+        let mut dark = plan_path(200, 100, 0);
+        let mut plan = move |v: &View<'_>, rng: &mut Rng| if v.iteration < 40 { good(v, rng) } else { dark(v, rng) };
+        run.count("directed:outage");
+        open_loop(&mut run, &cfg, 0, 600, false, &mut plan, rng);
     }
     // closed loop: silent network, the run has to end by itself after max_rounds rounds
     for proto in ['i', 'u', 't'] {
